@@ -80,7 +80,7 @@ def subchecks():
             name="search",
             run_case=run_case,
             strategy=lambda tier: gen.scenario(tier),
-            examples={"quick": 10000, "thorough": 200000},
+            examples={"quick": 18000, "thorough": 200000},
             case_timeout=20.0,
         ),
     ]
